@@ -67,6 +67,8 @@ class Driver:
         env = dict(os.environ)
         env.update(self.extra_env)
         if self.build_name == "asan":
+            # instrumented frames are several times larger: the sanitizer build keeps an 8 MiB worker stack so that "deep" means the same inputs
+            env.setdefault("BSVDRV_STACK", str(8 << 20))
             env.setdefault("ASAN_OPTIONS", "detect_leaks=0:halt_on_error=1:abort_on_error=0:exitcode=99:allocator_may_return_null=1:max_allocation_size_mb=4096")
         self.p = subprocess.Popen([self.path], stdin=subprocess.PIPE, stdout=subprocess.PIPE, stderr=subprocess.PIPE if self.build_name == "asan" else subprocess.DEVNULL, env=env, bufsize=0)
         self.buf = b""
